@@ -909,6 +909,116 @@ func (in *inliner) sroaArrays(fd *ast.FuncDecl, file *ast.File) int {
 	return n
 }
 
+// elementOf: the expression for element j of the ranged sequence: seq[j], or for a constant table the
+// (constant) element expression itself, converted to the element type.
+func elementOf(in *inliner, file *ast.File, tableElts []ast.Expr, seqName string, j int64, info *types.Info) ast.Expr {
+	if tableElts == nil {
+		return &ast.IndexExpr{X: ident(seqName), Index: &ast.BasicLit{Kind: token.INT, Value: fmt.Sprint(j)}}
+	}
+	e := tableElts[j]
+	if te, ok := in.typeExpr(info.TypeOf(e), file); ok {
+		return &ast.CallExpr{Fun: &ast.ParenExpr{X: te}, Args: []ast.Expr{cloneAST(e).(ast.Expr)}}
+	}
+	return &ast.IndexExpr{X: ident(seqName), Index: &ast.BasicLit{Kind: token.INT, Value: fmt.Sprint(j)}}
+}
+
+// constantTable: obj is an unexported package-level array or slice variable declared with a literal of
+// 1..16 constant elements (no keys) that the package only ever ranges over, indexes for reading or
+// takes the length of - a table in all but name.  Returns the element expressions.
+func constantTable(pk *pkgView, obj *types.Var) []ast.Expr {
+	if obj.Exported() {
+		return nil
+	}
+	switch obj.Type().Underlying().(type) {
+	case *types.Array, *types.Slice:
+	default:
+		return nil
+	}
+	info := pk.TypesInfo
+	var elts []ast.Expr
+	for _, f := range pk.Syntax {
+		for _, d := range f.Decls {
+			gd, ok := d.(*ast.GenDecl)
+			if !ok || gd.Tok != token.VAR {
+				continue
+			}
+			for _, sp := range gd.Specs {
+				vs := sp.(*ast.ValueSpec)
+				for i, nm := range vs.Names {
+					if info.Defs[nm] != obj || len(vs.Values) != len(vs.Names) {
+						continue
+					}
+					lit, ok := stripParens(vs.Values[i]).(*ast.CompositeLit)
+					if !ok || len(lit.Elts) < 1 || len(lit.Elts) > 16 {
+						return nil
+					}
+					for _, e := range lit.Elts {
+						if _, isKV := e.(*ast.KeyValueExpr); isKV {
+							return nil
+						}
+						if tv, ok := info.Types[e]; !ok || tv.Value == nil {
+							return nil
+						}
+					}
+					elts = lit.Elts
+				}
+			}
+		}
+	}
+	if elts == nil {
+		return nil
+	}
+	// every mention is a read of that kind
+	good := true
+	for _, f := range pk.Syntax {
+		var stack []ast.Node
+		ast.Inspect(f, func(n ast.Node) bool {
+			if n == nil {
+				stack = stack[:len(stack)-1]
+				return true
+			}
+			if id, ok := n.(*ast.Ident); ok && info.Uses[id] == obj && len(stack) > 0 {
+				okUse := false
+				switch p := stack[len(stack)-1].(type) {
+				case *ast.RangeStmt:
+					okUse = p.X == ast.Expr(id)
+				case *ast.IndexExpr:
+					if p.X == ast.Expr(id) && len(stack) > 1 {
+						okUse = true
+						switch gp := stack[len(stack)-2].(type) {
+						case *ast.AssignStmt:
+							for _, l := range gp.Lhs {
+								if l == ast.Expr(p) {
+									okUse = false
+								}
+							}
+						case *ast.IncDecStmt:
+							okUse = false
+						case *ast.UnaryExpr:
+							if gp.Op == token.AND {
+								okUse = false
+							}
+						}
+					}
+				case *ast.CallExpr:
+					if fid, ok := p.Fun.(*ast.Ident); ok && fid.Name == "len" && len(p.Args) == 1 && p.Args[0] == ast.Expr(id) {
+						_, okUse = info.Uses[fid].(*types.Builtin)
+					}
+				}
+				if !okUse {
+					good = false
+				}
+			}
+			stack = append(stack, n)
+			return true
+		})
+	}
+	if !good {
+		return nil
+	}
+	return elts
+}
+
 // sliceLitLen: obj is defined in fd by `obj := []T{e0, ..., ek-1}` (1 <= k <= 16, no keys); returns k, else 0.
 func sliceLitLen(info *types.Info, fd *ast.FuncDecl, obj types.Object) int64 {
 	if _, isSlice := obj.Type().Underlying().(*types.Slice); !isSlice {
@@ -969,8 +1079,27 @@ func unrollPackage(pk *pkgView, known map[string]bool) (int, []string) {
 				var n int64
 				var body *ast.BlockStmt
 				var seqName, valName string // range over a local slice literal: the slice and the element variable
+				var tableElts []ast.Expr    // range over a constant package-level table: its element expressions
 				switch x := c.Node().(type) {
 				case *ast.RangeStmt:
+					if xid, ok := x.X.(*ast.Ident); ok && x.Tok == token.DEFINE {
+						if obj, isVar := info.Uses[xid].(*types.Var); isVar && obj.Parent() == pk.Types.Scope() {
+							if elts := constantTable(pk, obj); elts != nil {
+								kid, _ := x.Key.(*ast.Ident)
+								vid, _ := x.Value.(*ast.Ident)
+								if (x.Key == nil || kid != nil) && (x.Value == nil || vid != nil) {
+									n, body, seqName, tableElts = int64(len(elts)), x.Body, xid.Name, elts
+									if kid != nil && kid.Name != "_" {
+										iv = info.Defs[kid]
+									}
+									if vid != nil && vid.Name != "_" {
+										valName = vid.Name
+									}
+									break
+								}
+							}
+						}
+					}
 					if xid, ok := x.X.(*ast.Ident); ok && x.Tok == token.DEFINE {
 						if obj, isVar := info.Uses[xid].(*types.Var); isVar && !obj.IsField() && obj.Parent() != pk.Types.Scope() {
 							if k := sliceLitLen(info, fd, obj); k >= 1 && in.readOnlyIn(obj, fd.Body, false) {
@@ -1057,7 +1186,9 @@ func unrollPackage(pk *pkgView, known map[string]bool) (int, []string) {
 					case *ast.LabeledStmt:
 						good = false
 					case *ast.BranchStmt:
-						if y.Label != nil || y.Tok == token.GOTO {
+						// a labelled break/continue leaves for a statement outside the body (the body declares
+						// no labels): it does the same from every copy
+						if y.Tok == token.GOTO {
 							good = false
 						}
 					}
@@ -1080,7 +1211,7 @@ func unrollPackage(pk *pkgView, known map[string]bool) (int, []string) {
 					if valName != "" {
 						// the element is read when its iteration starts, as the range statement does
 						bj.List = append([]ast.Stmt{
-							&ast.AssignStmt{Lhs: []ast.Expr{ident(valName)}, Tok: token.DEFINE, Rhs: []ast.Expr{&ast.IndexExpr{X: ident(seqName), Index: &ast.BasicLit{Kind: token.INT, Value: fmt.Sprint(j)}}}},
+							&ast.AssignStmt{Lhs: []ast.Expr{ident(valName)}, Tok: token.DEFINE, Rhs: []ast.Expr{elementOf(in, f, tableElts, seqName, j, info)}},
 							&ast.AssignStmt{Lhs: []ast.Expr{ident("_")}, Tok: token.ASSIGN, Rhs: []ast.Expr{ident(valName)}},
 						}, bj.List...)
 					}
